@@ -333,6 +333,20 @@ func badTimestamps() []C15BadCase {
 	bin(binTS(60, false, 2021, 1, 1, 12), "hour-without-minute")
 	bin(binTS(0, true, 2021, 6, 15, 7), "hour-without-minute")
 	bin(binTS(0, false, 2021, 2, 30, 10, 10), "feb-30")
+	// fields of 2^63 and more (they must not wrap into range as signed numbers)
+	bin(binTS(0, false, 2021, 1, 1, 5, ^uint64(0)), "minute-2^64-1")
+	bin(binTS(0, false, 2021, 1, 1, 5, ^uint64(0)-59), "minute-2^64-60")
+	bin(binTS(0, false, 2021, 1, 1, 5, 5, ^uint64(0)), "second-2^64-1")
+	bin(binTS(0, false, 2021, 1, 1, 5, 1<<63), "minute-2^63")
+	bin(binTS(0, false, 2021, 1, 1, ^uint64(0), 5), "hour-2^64-1")
+	bin(binTS(0, false, 2021, 1, ^uint64(0)), "day-2^64-1")
+	// offsets of 24 hours and more
+	bin(binTS(1440, false, 2021, 1, 1, 5, 5), "offset-24h")
+	bin(binTS(-1440, false, 2021, 1, 1, 5, 5), "offset-24h")
+	bin(binTS(1500, false, 2021, 1, 1, 5, 5, 5), "offset-25h")
+	bin(binTS(100000, false, 2021, 1, 1, 5, 5), "offset-1666h")
+	bin(binTS(1<<62, false, 2021, 1, 1, 5, 5), "offset-2^62")
+	bin(binTS(1<<62+60, false, 2021, 1, 1, 5, 5), "offset-2^62+60")
 	return out
 }
 
